@@ -283,6 +283,11 @@ def check_fields(r) -> list[Fail]:
 
     ens = _ens(r)
     grid = _grid(r, ens)
+    gk = r.get("grid_kind", 0)
+    if gk == 1:
+        grid = grid.astype(np.float64)                       # a double-precision grid (rectangular_grid(dtype="float64"), user-made arrays)
+    elif gk == 2:
+        grid = np.unique(np.round(grid).astype(np.int64), axis=0)     # an integer lattice (np.mgrid / np.indices output)
     fails: list[Fail] = []
     g64 = grid.astype(np.float64)
     nc, n = ens.n_conformers, ens.n_atoms
@@ -367,14 +372,14 @@ def check_fields(r) -> list[Fail]:
 
 
 def classify_fields(r):
-    return r["n_atoms"] >= 2, ["weighted" if r["weighted"] else "unweighted", f"n_conf={r['n_conf']}"]
+    return r["n_atoms"] >= 2, ["weighted" if r["weighted"] else "unweighted", f"n_conf={r['n_conf']}", "grid=" + ["float32", "float32", "float64", "int64_lattice"][r.get("grid_kind", 0) if r.get("grid_kind", 0) != 0 else 0]]
 
 
 def strat_desc(tier):
     return st.fixed_dictionaries({
         "seed": st.integers(0, 10**6), "n_atoms": st.one_of(st.integers(2, 12), st.integers(2, 40)), "n_conf": st.integers(1, 4), "spread": st.sampled_from([1.5, 3.0, 6.0]),
         "gpad": st.sampled_from([0.0, 1.0, 3.0]), "gspacing": st.sampled_from([1.0, 0.7, 1.5, 2.5, 4.0]), "cut": st.sampled_from([2.0, 1.0, 3.5, 0.5]), "eps": st.sampled_from([0.5, 0.0, 0.1, 1.0]),
-        "weighted": st.booleans(),
+        "weighted": st.booleans(), "grid_kind": st.sampled_from([0, 0, 1, 2]),
     })
 
 
